@@ -463,8 +463,13 @@ def expected (i : Input) : Option Out :=
       let a := effAmount d.amount i.resp
       match i.dk with
       | .evm => some (.ok ⟨i.id, .evm (Canon.evmFungible a d.recipient d.opt), gasOfOpt d.opt⟩)
-      | .sub => if d.opt = none then some (.ok ⟨i.id, .evm (Canon.subFungible a d.recipient), none⟩) else none
-      | .btc => if d.opt = none ∧ a / 10 ^ 10 < 2 ^ 64 then some (.ok ⟨i.id, .btc (a / 10 ^ 10) d.recipient, none⟩) else none
+      -- an optional message cannot be delivered to Substrate / Bitcoin, an amount beyond uint64 satoshi cannot be paid:
+      -- the destination handler refuses, no proposal is prepared
+      | .sub => if d.opt = none then some (.ok ⟨i.id, .evm (Canon.subFungible a d.recipient), none⟩) else some .errDst
+      | .btc =>
+        if d.opt = none then
+          if a / 10 ^ 10 < 2 ^ 64 then some (.ok ⟨i.id, .btc (a / 10 ^ 10) d.recipient, none⟩) else some .errDst
+        else some .errDst
     else none
   | .sub =>
     let d := parseFungible i.cd
@@ -472,7 +477,7 @@ def expected (i : Input) : Option Out :=
       match i.dk with
       | .evm => some (.ok ⟨i.id, .evm (Canon.evmFungible d.amount d.recipient none), none⟩)
       | .sub => some (.ok ⟨i.id, .evm (Canon.subFungible d.amount d.recipient), none⟩)
-      | .btc => if d.amount / 10 ^ 10 < 2 ^ 64 then some (.ok ⟨i.id, .btc (d.amount / 10 ^ 10) d.recipient, none⟩) else none
+      | .btc => if d.amount / 10 ^ 10 < 2 ^ 64 then some (.ok ⟨i.id, .btc (d.amount / 10 ^ 10) d.recipient, none⟩) else some .errDst
     else none
   | .erc721 =>
     let n := beToNat ((i.cd.drop 32).take 32)
@@ -510,7 +515,7 @@ def expected (i : Input) : Option Out :=
         match i.dk with
         | .evm => if i.num * 10 ^ 10 < 2 ^ 256 then some (.ok ⟨id, .evm (Canon.evmFungible (i.num * 10 ^ 10) addr none), none⟩) else none
         | .sub => if i.num * 10 ^ 10 < 2 ^ 256 then some (.ok ⟨id, .evm (Canon.subFungible (i.num * 10 ^ 10) addr), none⟩) else none
-        | .btc => if i.num < 2 ^ 64 then some (.ok ⟨id, .btc i.num addr, none⟩) else none
+        | .btc => if i.num < 2 ^ 64 then some (.ok ⟨id, .btc i.num addr, none⟩) else some .errDst
       else none
     | _ => none
 
@@ -527,7 +532,7 @@ def expectedMsg (dk : DstKind) (m : Msg) : Option Out :=
   | .sub, .fungible, [.bytes a, .bytes r] =>
     if a.length = 32 then some (.ok ⟨m.id, .evm (Canon.subFungible (beToNat a) r), m.gas⟩) else none
   | .btc, .fungible, [.bytes a, .bytes r] =>
-    if beToNat a / 10 ^ 10 < 2 ^ 64 then some (.ok ⟨m.id, .btc (beToNat a / 10 ^ 10) r, none⟩) else none
+    if beToNat a / 10 ^ 10 < 2 ^ 64 then some (.ok ⟨m.id, .btc (beToNat a / 10 ^ 10) r, none⟩) else some .errDst
   | .evm, .nonFungible, [.bytes t, .bytes r, .bytes md] =>
     if t.length = 32 then some (.ok ⟨m.id, .evm (Canon.nft (beToNat t) r md), m.gas⟩) else none
   | .evm, .permissionlessGeneric, [.bytes fs, .bytes ca, .bytes fee, .bytes dep, .bytes ex] =>
